@@ -5,7 +5,7 @@
 cd /verif
 export GOFLAGS=-mod=mod GOPROXY=off GOSUMDB=off GOTOOLCHAIN=local GOWORK=off
 [ -x bin/tongocheck ] || ./setup.sh >/dev/null
-seeds="$@"; [ -z "$seeds" ] && seeds=$(ls seeded)
+seeds="$@"; [ -z "$seeds" ] && seeds=$(ls seeded | grep -v retired)
 one() {
   id=$1
   r=/tmp/sm-repo-$id; v=/tmp/sm-verif-$id
